@@ -9,7 +9,6 @@ import (
 	"context"
 	"encoding/binary"
 	"fmt"
-	"io"
 	"log"
 	"math/rand"
 	"net"
@@ -841,7 +840,7 @@ func TestC19ServerCancel(t *testing.T) {
 			defer libif.VerifDropFake(name)
 			ctx, cancel := context.WithCancel(context.Background())
 			defer cancel()
-			srv, err := server.New(ctx, log.New(io.Discard, "", 0), ifc, cfg.proto())
+			srv, err := server.New(ctx, log.New(logSink{}, "", 0), ifc, cfg.proto())
 			if err != nil {
 				vl.add("c19-setup", "server.New: %v", err)
 				return
